@@ -436,9 +436,11 @@ func (s *sys) loopOps() []string {
 		if len(s.undelivered()) > 0 {
 			ops = append(ops, "Deliver")
 		}
-		ops = append(ops, "Detach", "Break")
-		if s.ticks == 0 && s.rt.held == nil {
-			ops = append(ops, "+interval", "+interval(hold)")
+		if s.rt.held == nil { // while the harness holds a response back the connection is not torn down (the requester legitimately waits for it)
+			ops = append(ops, "Detach", "Break")
+			if s.ticks == 0 {
+				ops = append(ops, "+interval", "+interval(hold)")
+			}
 		}
 	} else {
 		ops = append(ops, "+reconnect")
@@ -905,7 +907,14 @@ func (s *sys) describe() string {
 	for _, m := range s.pending {
 		fmt.Fprintf(&sb, "%d:%s:%s:%d,", m.n, m.typ, m.id, m.ver)
 	}
-	sb.WriteString("] fly=[")
+	sb.WriteString("]")
+	if s.rt.held != nil {
+		// the response in flight is part of the state
+		var snap ha.SyncMessage
+		json.Unmarshal(s.rt.lastBody, &snap)
+		sb.WriteString(" held-snapshot=" + strings.Join(sortedCanon(snap.Sessions), ";"))
+	}
+	sb.WriteString(" fly=[")
 	for _, l := range s.undelivered() {
 		var m ha.SyncMessage
 		json.Unmarshal(frameData(l), &m)
@@ -1031,8 +1040,8 @@ func models(t *testing.T, run *report.Run) []*explore.Model {
 	for _, c := range []cfg{{ids: ids}, {ids: ids - 1, attached: true}, {ids: 2, loop: true}} {
 		c := c
 		d := depth
-		if c.loop {
-			d-- // the real-loop configuration: one level shallower
+		if c.loop || (!c.attached && !run.Thorough()) {
+			d-- // the real-loop configuration, and in the quick tier the widest (empty-start) configuration: one level shallower
 		}
 		ms = append(ms, &explore.Model{
 			Name: "ha.HASyncer-pair", Config: fmt.Sprintf("ids=%d attached=%v loop=%v", c.ids, c.attached, c.loop),
